@@ -114,7 +114,16 @@ def run(ctx, built):
         elif s is None and in_domain(lo, hi):
             ctx.oracle_fail(f"snap_interval(Interval({lo!r}, {hi!r})) does not terminate", {"op": "snap", "lo": lo, "hi": hi})
         # halves and half index on the snapped range (what the trees use) and on the raw range
-        for rng_ in ([iv] if s is None else [iv, s]):
+        lived = []
+        if R.random() < 0.25 and math.isfinite(lo) and math.isfinite(hi):
+            # an Interval object with a history, as the forest makes them: queried, then widened by the null stand-in (and once more by a value), then halved
+            w = Interval(lo, hi); w.middle(); w.half_index(lo); w.half(1)
+            try:
+                w.expand(get_null_mapping(w)); w.middle(); w.expand(w.max + (w.max - w.min))
+                if math.isfinite(w.min) and math.isfinite(w.max): lived = [w]
+            except Exception:
+                lived = []
+        for rng_ in ([iv] if s is None else [iv, s]) + lived:
             a, b = rng_.min, rng_.max
             if not (math.isfinite(a) and math.isfinite(b)):
                 continue
